@@ -20,12 +20,14 @@ MODELLED_NOT_VERIFIED = [
     "C03: `step` refuses (bad-input) operations naming nodes that are not in the tree or breaking the harness's issuing "
     "preconditions (e.g. parent setter into the node's own subtree, resolve limit < 2); those branches make no claim about the code",
     "C03: resolve_polytomies(rng=...), reroot_at_midpoint and the pointer state of detached nodes are checked by the oracle only (no model)",
+    "C03: the structures a history detaches (removed subtree, what `tree.seed_node = node` leaves behind, a second Tree built "
+    "from a clade) are judged by the oracle as arborescences of their own that share no node with the tree; the model carries only the tree",
     "C03: node annotations, comments, labels and Edge objects' own attributes are carried opaquely; add_child of a node that is "
     "still attached elsewhere is outside the documented precondition and outside the history alphabet",
     "C03: clause (c) (update_bipartitions leaves a fresh encoding) is decided by the from-scratch oracle only; the Lean model carries "
     "the restructuring done by encode_bipartitions, not the masks (those are C01's)",
 ]
-EXPLANATION = ("Theorems (Props/C03.lean, no sorry/axioms): step_wf / history_wf - every operation of the 29-constructor alphabet "
+EXPLANATION = ("Theorems (Props/C03.lean, no sorry/axioms): step_wf / history_wf - every operation of the 30-constructor alphabet (incl. assigning Tree.seed_node to an attached node) "
                "and every finite history keeps the rose tree free of shared nodes (they do not say nodes are kept); "
                "step_keeps_leaves_partial / history_keeps_leaves_partial - for 14 operations (suppress, basal collapse, root "
                "polytomy, unweighted collapse, encode, ladderize, reorder, rotate, reseed/reroot at internal nodes, the "
@@ -64,6 +66,7 @@ class World(object):
         self.tns = dendropy.TaxonNamespace([label_of_bit(i) for i in range(self.nbits)])
         self.tree, _ = tu.tree_from_tokens(dendropy, toks, rooted={"R": True, "U": False, "N": None}[rooted], tns=self.tns)
         self.limbo = None
+        self.other = None       # a second Tree object built from a clade of the first
         if limbo_toks:
             lt, _ = tu.tree_from_tokens(dendropy, limbo_toks, tns=self.tns)
             self.limbo = lt.seed_node
@@ -314,6 +317,14 @@ def candidates(world, snap, rng, full=False, cats=None):
     if want("encode"):
         for f in flagsets(rng, ["s", "c"], full):
             ops.append(dict(op="encode", **f))
+    if want("setseed"):
+        # `tree.seed_node = node` with a node that is still attached: "spliced out of its current context"
+        for t in pick(allv):
+            ops.append(dict(op="setseed", n=t))
+    if want("newtree"):
+        # Tree(seed_node=clade of this tree): the clade leaves the donor tree
+        for t in pick(nonroot):
+            ops.append(dict(op="newtree", n=t))
     if want("reorient"):
         for k in pick(allv):
             for f in flagsets(rng, ["ub"], full):
@@ -401,6 +412,11 @@ def to_line(snap, op):
         return head + "encode %d %d %s" % (op["s"], op["c"], t)
     if o == "reorient":
         return head + "reorient %d %d %s" % (op["k"], op["mode"], t)
+    if o == "setseed":
+        return head + "setseed %d %s" % (op["n"], t)
+    if o == "newtree":
+        # for the donor tree this is the plain removal of the clade
+        return head + "remove %d %d 0 %s" % (snap.parent[op["n"]], op["n"], t)
     raise ValueError(o)
 
 
@@ -478,6 +494,10 @@ def execute(world, snap, op):
         tree.encode_bipartitions(suppress_unifurcations=b("s"), collapse_unrooted_basal_bifurcation=b("c"))
     elif o == "reorient":
         tree.randomly_reorient(rng=ScriptRng(mode=op["mode"], pick=op["k"]), update_bipartitions=b("ub"))
+    elif o == "setseed":
+        tree.seed_node = N(op["n"])
+    elif o == "newtree":
+        world.other = world.dendropy.Tree(taxon_namespace=world.tns, seed_node=N(op["n"]))
     elif o == "midpoint":
         tree.reroot_at_midpoint(update_bipartitions=b("ub"), suppress_unifurcations=b("s"))
     else:
@@ -491,6 +511,10 @@ def err_class(e):
 
 def structure_problems(tree):
     """clause (a), literally, by a walk over `_child_nodes` that calls none of the routines under test"""
+    first = tu.walk(tree.seed_node)
+    if len({id(x) for x in first}) != len(first):
+        # shared or cyclic: the library's traversals need not terminate on such a graph, they are not consulted
+        return ["node reachable twice (shared or cyclic)"] + (["seed has a parent"] if tree.seed_node._parent_node is not None else [])
     probs = list(tu.arborescence_problems(tree))
     edges = {}
     for nd in tu.walk(tree.seed_node)[:100000]:
@@ -502,11 +526,49 @@ def structure_problems(tree):
     return sorted(set(probs))
 
 
+def detached_problems(world):
+    """the structures the history has detached from the tree (a removed subtree, what an assignment to seed_node left
+    behind, a second tree built from a clade) are arborescences of their own and share no node with the tree:
+    'every other node appears exactly once among its parent's children ... nothing is shared or cyclic'"""
+    probs = []
+    main = {id(x) for x in tu.walk(world.tree.seed_node)}
+    roots = []
+    if world.limbo is not None:
+        roots.append(("detached subtree", world.limbo))
+    if world.other is not None:
+        roots.append(("second tree", world.other.seed_node))
+    for what, root in roots:
+        if root._parent_node is not None:
+            probs.append("%s: its root has a parent" % what)
+        nodes = tu.walk(root)
+        ids_ = [id(x) for x in nodes]
+        if len(set(ids_)) != len(ids_):
+            probs.append("%s: node reachable twice (shared or cyclic)" % what)
+        if set(ids_) & main:
+            probs.append("%s shares nodes with the tree" % what)
+        for nd in nodes:
+            kids = nd._child_nodes
+            if len({id(c) for c in kids}) != len(kids):
+                probs.append("%s: a node lists the same child twice" % what)
+            for c in kids:
+                if c._parent_node is not nd:
+                    probs.append("%s: child's parent pointer does not point back" % what)
+            if nd._edge is None or nd._edge._head_node is not nd:
+                probs.append("%s: edge head is not its node" % what)
+    if world.other is not None and not probs:
+        probs += ["second tree: " + p for p in structure_problems(world.other)]
+    return sorted(set(probs))
+
+
 def may_vanish(snap, op):
     """ids (snapshot numbering) of the nodes the operation was asked to remove"""
     o = op["op"]
     if o == "remove":
         return set(snap.subtree(op["c"]))
+    if o == "newtree":
+        return set(snap.subtree(op["n"]))
+    if o == "setseed":
+        return set(range(snap.n)) - set(snap.subtree(op["n"]))
     if o == "prunesubtree":
         # the subtree, and the ancestors that are left without any child by its removal
         gone = set(snap.subtree(op["c"]))
@@ -665,7 +727,15 @@ def do_step(ctx, world, op, hist, pending, single_check=True):
         fails.append(("exception", "%s raised %s on an input that meets its documented argument conditions" % (op["op"], raised)))
     if raised is None and expect is not None:
         fails.append(("missing-error", "%s completed although %s is documented for this argument" % (op["op"], expect)))
+    if raised is None and op["op"] == "remove":
+        world.limbo = snap.ids.node(op["c"])    # the removed subtree is judged as a structure of its own from now on
+    elif raised is None and op["op"] == "setseed" and op["n"] != 0:
+        world.limbo = snap.ids.node(0)          # what the assignment left behind
+    elif raised is None and op["op"] in ("newtree", "addsub", "insertsub"):
+        world.limbo = None                      # the clade now lives in `world.other` / is part of the tree again
     probs = ["not examined after a hang"] if raised == "Timeout" else structure_problems(world.tree)
+    if not probs:
+        probs = detached_problems(world)
     if raised == "Timeout":
         fails.append(("hang", "%s did not return within %d s" % (op["op"], HANG_S)))
     elif probs:
@@ -720,6 +790,8 @@ def do_step(ctx, world, op, hist, pending, single_check=True):
             world.limbo = snap.ids.node(op["c"])
         elif op["op"] in ("addsub", "insertsub"):
             world.limbo = None
+        elif op["op"] == "newtree" and not probs:
+            world.limbo, world.other = world.other.seed_node, None      # from now on an ordinary detached subtree
     return not fails and not probs and raised in (None, expect)
 
 
@@ -939,13 +1011,13 @@ CATS = ["remove", "newchild", "insertnew", "addsub", "insertsub", "insertmove", 
         "reseed", "reseed", "reseed_leaf", "rerootnode", "rerootedge", "outgroup", "outgroup", "suppress", "collapsebasal",
         "polytomize", "collapseunweighted", "collapseunweighted", "resolve", "resolve_rng", "prunesubtree", "filterleaves",
         "prunenotaxa", "prunetaxa", "retaintaxa", "ladderize", "reorder", "rotate", "shuffle", "encode", "reorient", "midpoint",
-        "errors"]
+        "setseed", "newtree", "addsub", "errors"]
 
 
-NOCOMPOSE = {"newchild", "insertnew", "addsub", "insertsub", "rerootedge", "resolve", "resolve_rng", "midpoint"}
+NOCOMPOSE = {"newtree", "newchild", "insertnew", "addsub", "insertsub", "rerootedge", "resolve", "resolve_rng", "midpoint"}
 
 
-NODE_FIELDS = {"remove": ("p", "c"), "insertmove": ("p", "c"), "setparent": ("c", "q"), "edgecollapse": ("c",),
+NODE_FIELDS = {"setseed": ("n",), "remove": ("p", "c"), "insertmove": ("p", "c"), "setparent": ("c", "q"), "edgecollapse": ("c",),
                "collapseclade": ("c",), "reseed": ("n",), "rerootnode": ("n",), "outgroup": ("n",), "prunesubtree": ("c",),
                "reorient": ("k",)}
 
